@@ -161,7 +161,14 @@ func Main(prop, tier string, only int) int {
 			jobs = append(jobs, job{"C17R(" + ing.String() + ")", vsched.Config{Bound: -1, Deadline: dl, Races: true, StateKeys: true, Body: c17IngressBody(ing), Check: c17IngressCheck}})
 		}
 		for _, sc := range c15Scenarios("quick") {
-			jobs = append(jobs, job{"C17R-perio(" + sc.P.String() + ")", vsched.Config{Bound: 2, TickBudget: sc.P.Ticks, Deadline: dl, Races: true, StateKeys: true,
+			pb := 2
+			if tier != "thorough" {
+				if sc.P.Name == "two-periods" {
+					continue // the largest one: thorough only
+				}
+				pb = 1
+			}
+			jobs = append(jobs, job{"C17R-perio(" + sc.P.String() + ")", vsched.Config{Bound: pb, TickBudget: sc.P.Ticks, Deadline: dl, Races: true, StateKeys: true,
 				Body: c15Body(sc.P), Check: c15Check}})
 		}
 	case "C15":
